@@ -48,6 +48,8 @@ PLATFORM_ORDER_CELLS = [
     ("https://www.facebook.com/permalink.php", [("story_fbid", "55"), ("id", "100")]), ("https://www.facebook.com/photo.php", [("fbid", "10"), ("set", "a.1"), ("type", "3")]), ("https://www.facebook.com/profile.php", [("id", "100"), ("sk", "about")]),
     ("https://www.facebook.com/watch/", [("v", "311658803718223"), ("ref", "sharing")]), ("https://www.facebook.com/some.page/videos/12/", [("comment_id", "5"), ("x", "1")]),
     ("http://a.com/x", [("b", "2"), ("a", "1"), ("c", "")]),
+    # a redirection is inferred from the items of the query, whatever their order
+    ("https://www.google.com/url", [("q", "http%3A%2F%2Fb.org%2Fx"), ("sa", "D")]), ("http://a.com/r", [("url", "http%3A%2F%2Fb.org%2Fx"), ("z", "1")]),
 ]
 
 
